@@ -373,7 +373,7 @@ fn c03_false_twin() {
 
 // ------------------------------------------------------------------------------------------ C19
 
-// @h props=C19,C03:t tier=quick family=M mem=6 timeout=2400 stubs=ModelBRS,utils::stable_partition_of_2->fixed_array_reference(c17) role=wt.paths.u8
+// @h props=C19,C03:t tier=quick family=M mem=18 timeout=2400 stubs=ModelBRS,utils::stable_partition_of_2->fixed_array_reference(c17) role=wt.paths.u8
 // @bound WaveletTree<u8, ModelBRS, false>: length 3 (s[2] = 255): new / From<Vec> / collect give equal values, Clone is equal, a sequence differing in one symbolic position gives an unequal value
 // @funcs WaveletTree::new, WaveletTree::from<Vec>, WaveletTree::from_iter, WaveletTree::clone, WaveletTree::eq
 #[kani::proof]
@@ -405,7 +405,7 @@ fn c19_wt_paths_u8_n3() {
     core::mem::forget(t4);
 }
 
-// @h props=C19 tier=quick family=M mem=6 timeout=2400 stubs=ModelBRS,utils::stable_partition_of_2->fixed_array_reference(c17) role=wt.widths
+// @h props=C19 tier=quick family=M mem=18 timeout=2400 stubs=ModelBRS,utils::stable_partition_of_2->fixed_array_reference(c17) role=wt.widths
 // @bound the same concrete numbers [1,0,2,4,5,3] carried as u8, u32 and u64 in the binary tree: get / rank / select agree for symbolic arguments
 // @funcs WaveletTree::new, WaveletTree::get, WaveletTree::rank, WaveletTree::select
 #[kani::proof]
